@@ -1149,8 +1149,10 @@ def events_agree(impl, model, wire32):
 
 
 def broken(ctx):
-    """something already decides the verdict: stop generating further work"""
-    return bool(ctx.failures or ctx.disagreements)
+    """the direct oracle already has a failing input: the verdict is decided, stop generating
+    further work (a model/implementation disagreement alone does not stop the search — a
+    failing input is still wanted)"""
+    return bool(ctx.failures)
 
 
 def check_histories(ctx, utils, only=None, phase="all"):
